@@ -276,6 +276,7 @@ def run(ctx):
     ctx.require('R-ERRCHK call sites', n, 4)
     from . import C01  # AREF semantics of the manual: second/third XY point = origin + count x pitch, counts as written in COLROW
     C01.check_aref(ctx, db)
+    C01.check_strans_writer(ctx, db)   # STRANS present whenever the element is reflected / rotated / magnified
 
 
 MANIFEST = dict(
